@@ -167,9 +167,16 @@ where CL03<CS>: Scheme<PubKey = CL03PublicKey, PrivKey = CL03SecretKey>, CS::Has
                 // sub-proofs of ANOTHER honest request (other hidden attributes, same positions) put in place of this proof's
                 {
                     if let O::Ok(f2) = holder::<CS>(w, n, &m_other, &r.u, r.trusted) {
-                        let (mut x, qj) = (to_json(&f.zkpok), to_json(&f2.zkpok));
-                        for key in ["proofs_commited_mi", "range_proofs_mi", "proof_r", "range_proof_r"] { x["CL03"][key] = qj["CL03"][key].clone(); }
-                        if let Some(z) = from_json::<ZKPoK<CL03<CS>>>(&x) { refuse("per-attribute sub-proofs, randomness proof and range proofs taken from a proof about another commitment".into(), "sub-proof-transplant", &z, f.c.cl03Commitment(), ct, &w.pk, &w.sk, &bases, cpk, &r.u); }
+                        let qj = to_json(&f2.zkpok);
+                        for (what, cls, keys) in [("per-attribute sub-proofs and their range proofs", "sub-proof-transplant", vec!["proofs_commited_mi", "range_proofs_mi"]),
+                                                  ("per-attribute sub-proofs, randomness proof and all range proofs", "sub-proof-transplant", vec!["proofs_commited_mi", "range_proofs_mi", "proof_r", "range_proof_r"]),
+                                                  ("range proofs of the hidden attributes (without the sub-proofs they belong to)", "sub-proof-transplant:range-proofs-only", vec!["range_proofs_mi"]),
+                                                  ("range proof of the randomness (without the proof it belongs to)", "sub-proof-transplant:range-proof-r-only", vec!["range_proof_r"]),
+                                                  ("randomness proof and its range proof", "sub-proof-transplant-randomness", vec!["proof_r", "range_proof_r"])] {
+                            let mut x = to_json(&f.zkpok);
+                            for key in keys { x["CL03"][key] = qj["CL03"][key].clone(); }
+                            if let Some(z) = from_json::<ZKPoK<CL03<CS>>>(&x) { refuse(format!("{} taken from a proof about another commitment", what), cls, &z, f.c.cl03Commitment(), ct, &w.pk, &w.sk, &bases, cpk, &r.u); }
+                        }
                     }
                 }
                 // the issuer's own inputs in other spellings / inconsistent combinations
